@@ -109,6 +109,7 @@ func prepareCorpus(s *build.Scratch, specs []string) ([]CorpusPkg, map[string]st
 	work := filepath.Join(s.Dir, "genwork")
 	_ = os.MkdirAll(work, 0o755)
 	_ = os.WriteFile(filepath.Join(work, "corpus.yml"), []byte(corpusConfig), 0o644)
+	_ = os.WriteFile(filepath.Join(work, "matrix.yml"), []byte(matrixConfig), 0o644)
 	var mu sync.Mutex
 	var wg sync.WaitGroup
 	sem := make(chan struct{}, 8)
@@ -121,7 +122,11 @@ func prepareCorpus(s *build.Scratch, specs []string) ([]CorpusPkg, map[string]st
 			name := "c" + strings.Trim(nonIdent.ReplaceAllString(strings.ToLower(strings.TrimSuffix(filepath.Base(rel), filepath.Ext(rel))), "_"), "_")
 			target := filepath.Join(h, "cx", name)
 			_ = os.MkdirAll(target, 0o755)
-			r := s.Run(work, 0, nil, filepath.Join(s.Bin, "ogen"), "--config", "corpus.yml", "--target", target, "--package", "api", "--clean", specPath(s, rel))
+			cfg := "corpus.yml"
+			if strings.HasPrefix(filepath.Base(rel), "mx_") && filepath.IsAbs(rel) {
+				cfg = "matrix.yml"
+			}
+			r := s.Run(work, 0, nil, filepath.Join(s.Bin, "ogen"), "--config", cfg, "--target", target, "--package", "api", "--clean", specPath(s, rel))
 			mu.Lock()
 			defer mu.Unlock()
 			if r.Err != nil || r.Exit != 0 {
